@@ -24,6 +24,9 @@ pub enum Op {
     Overwrite { slot: u8, ident: u8 },
     Close { slot: u8 },
     Batch { idents: Vec<u8> },
+    /// that many idle connections (no record, no request) are held open while one attributed connection is opened, used and
+    /// closed: a listener under load must still attribute (or refuse) every connection it accepts
+    Flood { n: u16, ident: u8 },
 }
 
 #[derive(Clone, Debug, Serialize, Deserialize, Hash)]
@@ -33,11 +36,12 @@ pub struct Case {
 
 fn op() -> impl Strategy<Value = Op> {
     prop_oneof![
-        4 => (0u8..4, prop::option::weighted(0.55, 0u8..4), prop::option::weighted(0.6, 0u8..IDENTS), prop::bool::weighted(0.15), prop::bool::weighted(0.25)).prop_map(|(slot, reuse_of, record, dead, idle)| Op::Open { slot, reuse_of, record, dead, idle }),
-        6 => (0u8..4, 0u8..IDENTS).prop_map(|(slot, only)| Op::Request { slot, only }),
-        2 => (0u8..4, 0u8..IDENTS).prop_map(|(slot, ident)| Op::Overwrite { slot, ident }),
-        2 => (0u8..4).prop_map(|slot| Op::Close { slot }),
-        1 => prop::collection::vec(0u8..IDENTS, 2..9).prop_map(|idents| Op::Batch { idents }),
+        20 => (0u8..4, prop::option::weighted(0.55, 0u8..4), prop::option::weighted(0.6, 0u8..IDENTS), prop::bool::weighted(0.15), prop::bool::weighted(0.25)).prop_map(|(slot, reuse_of, record, dead, idle)| Op::Open { slot, reuse_of, record, dead, idle }),
+        30 => (0u8..4, 0u8..IDENTS).prop_map(|(slot, only)| Op::Request { slot, only }),
+        10 => (0u8..4, 0u8..IDENTS).prop_map(|(slot, ident)| Op::Overwrite { slot, ident }),
+        10 => (0u8..4).prop_map(|slot| Op::Close { slot }),
+        5 => prop::collection::vec(0u8..IDENTS, 2..9).prop_map(|idents| Op::Batch { idents }),
+        1 => (prop_oneof![3 => 1030u16..1200, 1 => 200u16..1030], 0u8..IDENTS).prop_map(|(n, ident)| Op::Flood { n, ident }),
     ]
 }
 
@@ -45,7 +49,7 @@ pub fn strategy() -> impl Strategy<Value = Case> {
     prop::collection::vec(op(), 1..24).prop_map(|ops| Case { ops })
 }
 
-pub const RULE: &str = "generator: histories (1-23 ops) over 4 connection slots and 5 identities: Open{fresh port | the port last used by a slot (that connection is reset with SO_LINGER 0 first and the new socket binds the same port), a quarter of the opens stay idle (no request follows the connect: the record must be consumed at accept all the same, within 5 s), in 15% of the attributed opens the record names an unreachable destination so that the proxy's own connect to the host fails at accept time, with a record for identity k or without}, Request{slot, /only/<j>}, Overwrite{slot's port gets a new record while its connection is open}, Close, Batch{2-8 connections opened concurrently from threads, each with its own identity}. Identities differ in uid (generated passwd), process (helper executables) and elevation; the IMDS rule set (enforce, default deny) grants /only/<k> to identity k only, so every decision identifies whose claims were used, and the forwarded claims header gives the elevation bit. oracle: model port -> pending record; at accept the record moves to the connection and leaves the map (trace shows lookup then remove; the stand-in map has no entry for the port afterwards); every request on a connection is decided with that connection's identity regardless of later overwrites; a connection from a reused port without a fresh record gets 421 on every request. non-trivial: history with a port reuse without a fresh record after an attributed connection, or >= 2 requests on one connection with an overwrite in between, or a batch >= 4; distinct by hash of the history.";
+pub const RULE: &str = "generator: histories (1-23 ops) over 4 connection slots and 5 identities: Open{fresh port | the port last used by a slot (that connection is reset with SO_LINGER 0 first and the new socket binds the same port), a quarter of the opens stay idle (no request follows the connect: the record must be consumed at accept all the same, within 5 s), in 15% of the attributed opens the record names an unreachable destination so that the proxy's own connect to the host fails at accept time, with a record for identity k or without}, Request{slot, /only/<j>}, Overwrite{slot's port gets a new record while its connection is open}, Close, Batch{2-8 connections opened concurrently from threads, each with its own identity}, Flood{200-1199 idle connections are held open while one attributed connection is opened, used and closed}. Identities differ in uid (generated passwd), process (helper executables) and elevation; the IMDS rule set (enforce, default deny) grants /only/<k> to identity k only, so every decision identifies whose claims were used, and the forwarded claims header gives the elevation bit. oracle: model port -> pending record; at accept the record moves to the connection and leaves the map (trace shows lookup then remove; the stand-in map has no entry for the port afterwards); every request on a connection is decided with that connection's identity regardless of later overwrites; a connection from a reused port without a fresh record gets 421 on every request. non-trivial: history with a port reuse without a fresh record after an attributed connection, or >= 2 requests on one connection with an overwrite in between, or a batch >= 4; distinct by hash of the history.";
 
 pub fn ident_rec(k: u8) -> Rec {
     Rec { uid_sel: k % IDENTS, helper_sel: k % IDENTS, is_root: k % IDENTS == 0, dest: DestSel::Imds }
@@ -269,6 +273,39 @@ pub fn eval(rig: &Rig, case: &Case, stats: &mut Stats) -> Outcome {
                 if let Some(c) = slots[s].conn.take() {
                     crate::rawhttp::close_abortive(c.stream);
                 }
+            }
+            Op::Flood { n, ident } => {
+                stats.class(if *n >= 1024 { "flood:>=1024-idle-connections-held-open" } else { "flood:<1024-idle-connections-held-open" });
+                let mut idle: Vec<Conn> = Vec::new();
+                for _ in 0..*n {
+                    match rig.open(None, 0) {
+                        Ok(c) => idle.push(c),
+                        Err(_) => break,
+                    }
+                }
+                let k = *ident % IDENTS;
+                let _ = verif_hooks::take_trace();
+                let r = (|| -> Result<(), (String, String)> {
+                    let mut conn = rig.open(Some(rig.entry_of(&ident_rec(k))), 0).map_err(|e| ("rig:cannot-open-connection".to_string(), e))?;
+                    let p = conn.port;
+                    request_on(rig, &mut conn, Some(k), k)?;
+                    request_on(rig, &mut conn, Some(k), (k + 1) % IDENTS)?;
+                    crate::rawhttp::close_abortive(conn.stream);
+                    if verif_hooks::contains(p) {
+                        return Err(("attribution:record-left-in-map-after-accept".to_string(), format!("port {} while {} idle connections were open", p, idle.len())));
+                    }
+                    Ok(())
+                })();
+                for c in idle {
+                    crate::rawhttp::close_abortive(c.stream);
+                }
+                std::thread::sleep(Duration::from_millis(30));
+                let _ = verif_hooks::take_trace();
+                let _ = rig.mock.take_requests();
+                if let Err((sig, d)) = r {
+                    return Outcome::fail(sig, format!("step {} {:?} ({} idle connections open): {}", step, op, n, d));
+                }
+                nontrivial = true;
             }
             Op::Batch { idents } => {
                 if idents.len() >= 4 {
